@@ -1,4 +1,4 @@
-CONSTANTS MaxDepth = 3 DTypes <- QuickDTypes Toks <- QuickToks
+CONSTANTS MaxDepth = 3 DTypes <- QuickDTypes Toks <- QuickToks Acts <- AllActs
 INIT Init
 NEXT Next
 PROPERTY SaveLoad
